@@ -24,7 +24,14 @@ RULE = ("Hypothesis generates a Dataset or TemporalDataset spec (n_obs 1-6 or 17
         "operation on an object with a size-1 dimension, or a sort with duplicate keys and more "
         "than 16 rows; distinct by SHA1 of the case. Separate sub-check: 3-12 rows with a float "
         "descriptor holding 1-3 labels and >= 1 NaN (unlabelled rows), split_obs / odd_even_split: "
-        "partition of the rows only (non-trivial: >= 2 NaN rows next to labelled ones).")
+        "partition of the rows only (non-trivial: >= 2 NaN rows next to labelled ones). Separate "
+        "sub-check bin_grid: 2-8 time points (a third with repeated labels), 1-4 bins each listing "
+        "1-3 present values plus 0-3 absent values or a value twice: bin values and bin time label "
+        "are the means over exactly the matched samples (non-trivial: mean of the listed values "
+        "differs from the mean of the matched time points). Separate sub-check sparse_flag: 2-8 "
+        "rows, an observation descriptor (str / float / int; list or array) missing (None / NaN) "
+        "in >= 1 row and holding 1 (weight 3/4) or 2 labels in >= 1 row, to_df / from_df with "
+        "default or explicit channels: still per observation, each row keeps label or missingness.")
 
 ASSUMPTIONS = [
     "order is asserted only where documented or relied on by in-tree tests: subsets keep original "
@@ -41,6 +48,10 @@ ASSUMPTIONS = [
     "a constant observation descriptor re-appearing as dataset descriptor after from_df is accepted "
     "(documented); integer descriptors coming back as equal-valued floats are accepted",
     "average / bin means are compared with rtol 1e-12 (one rounding of an exactly known mean)",
+    "bin_time: every bin matches at least one sample (the mean of no samples is undefined); bins are "
+    "passed as a list of numpy arrays (the library formats them with numpy.array2string)",
+    "missing descriptor entries come back from the DataFrame round trip as None or NaN (pandas' "
+    "choice): both count as 'missing'; a column missing throughout is constant and not generated",
 ]
 
 DS_OPS = ['split_obs', 'split_channel', 'subset_obs', 'subset_channel', 'sort_by', 'merge_new',
@@ -274,6 +285,170 @@ def classify_unlabelled(case):
     return labels, k >= 2 and k < case['n']
 
 
+# ---------------------------------------------------------------------------------------
+# bin_time with a bin specification that is not a partition of the distinct time labels: a generic
+# bin grid reused on a cropped recording (a bin lists time values the dataset does not hold, or a
+# value twice) and repeated time labels (several samples with one label).  Documented: data is
+# averaged within time-bins, the time descriptor is set to the average of the binned time-points.
+# Every bin matches at least one sample (an empty bin has no mean: outside the domain).
+
+@st.composite
+def bin_grid_case(draw):
+    n_t = draw(st.integers(2, 8))
+    repeated = draw(st.integers(0, 2)) == 0
+    if repeated:
+        pool = draw(st.lists(st.integers(-8, 24), min_size=1, max_size=max(1, n_t - 1), unique=True))
+        tv = [pool[i % len(pool)] for i in range(n_t)]
+        tv = [tv[i] for i in draw(gen.permutation(n_t))]
+    else:
+        tv = draw(st.lists(st.integers(-8, 24), min_size=n_t, max_size=n_t, unique=True))
+    if draw(st.booleans()):
+        tv = sorted(tv)
+    present = sorted(set(tv))
+    absent = [v for v in range(-12, 29) if v not in present]
+    n_bins = draw(st.integers(1, 4))
+    bins = []
+    for _ in range(n_bins):
+        members = draw(st.lists(st.sampled_from(present), min_size=1, max_size=3, unique=True))
+        extra = draw(st.lists(st.sampled_from(absent), min_size=0, max_size=3))
+        if draw(st.integers(0, 3)) == 0:
+            extra = extra + [draw(st.sampled_from(members))]      # a value listed twice
+        both = members + extra
+        bins.append([both[i] for i in draw(gen.permutation(len(both)))])
+    t0 = draw(st.sampled_from([0.0, 0.0, 120000.0]))
+    return dict(n_obs=draw(st.integers(1, 3)), n_ch=draw(st.integers(1, 3)), tv=tv, bins=bins, t0=t0,
+                second=draw(st.booleans()))
+
+
+def check_bin_grid(case):
+    from rsatoolbox.data.dataset import TemporalDataset
+    n_obs, n_ch, t0 = case['n_obs'], case['n_ch'], case['t0']
+    time = np.array([t0 + t / 4.0 for t in case['tv']])
+    n_t = len(time)
+    meas = (np.arange(1, n_obs + 1)[:, None, None] * 1000.0 + np.arange(n_ch)[None, :, None] * 100.0
+            + np.arange(n_t)[None, None, :] * 1.0)
+    bins = [np.array([t0 + t / 4.0 for t in b]) for b in case['bins']]
+    tds = TemporalDataset(meas.copy(), obs_descriptors={'_oid': np.arange(1, n_obs + 1)},
+                          channel_descriptors={'_chid': np.arange(n_ch)},
+                          time_descriptors={'time': time.copy()})
+    what = 'TemporalDataset with time %s, bin_time(\'time\', %s)' % (
+        time.tolist(), [b.tolist() for b in bins])
+    out = lib(tds.bin_time, 'time', bins, on_error='violation', sig='bin_grid:raises')
+    require(out.measurements.shape == (n_obs, n_ch, len(bins)), '%s: result has shape %s, expected '
+            '%s' % (what, out.measurements.shape, (n_obs, n_ch, len(bins))), 'bin_grid:shape')
+    require(np.array_equal(tds.measurements, meas) and np.array_equal(tds.time_descriptors['time'], time),
+            '%s changed the dataset it was called on' % what, 'bin_grid:input-changed')
+    got_t = np.asarray(out.time_descriptors['time'], dtype=float)
+    for k, b in enumerate(bins):
+        idx = [i for i in range(n_t) if time[i] in set(b.tolist())]
+        exp_m = meas[:, :, idx].mean(axis=2)
+        require(np.allclose(out.measurements[:, :, k], exp_m, rtol=1e-12, atol=0),
+                '%s: bin %d is not the mean of the samples %s carrying its time points' % (what, k, idx),
+                'bin_grid:values')
+        exp_t = float(np.mean(time[idx]))
+        require(abs(got_t[k] - exp_t) <= 1e-12 * max(1.0, abs(exp_t)),
+                '%s: bin %d is labelled time=%r, the averaged time points are %s (mean %r)' % (
+                    what, k, float(got_t[k]), time[idx].tolist(), exp_t), 'bin_grid:time-label')
+
+
+def classify_bin_grid(case):
+    tv = case['tv']
+    present = set(tv)
+    labels = ['bins:%d' % len(case['bins']), 'repeated-time' if len(present) < len(tv) else 'unique-time']
+    differs = False
+    for b in case['bins']:
+        sel = [t for t in tv if t in set(b)]
+        if any(v not in present for v in b):
+            labels.append('bin:absent-value')
+        if len(set(b)) < len(b):
+            labels.append('bin:value-twice')
+        if abs(float(np.mean(b)) - float(np.mean(sel))) > 1e-9:
+            differs = True
+    labels = sorted(set(labels)) + (['spec-mean!=sample-mean'] if differs else [])
+    return labels, differs
+
+
+# ---------------------------------------------------------------------------------------
+# DataFrame round trip with a sparsely filled observation descriptor: a flag column holding None /
+# NaN for most rows and one (or two) distinct real labels for the others.  The unchanged library
+# gives the missing entries back as None or NaN (pandas' choice); asserted is only that the
+# descriptor stays per observation, labelled rows keep their label, unlabelled rows stay
+# unlabelled, and each row keeps its measurements.  A column that is missing throughout is
+# constant (documented: becomes a dataset descriptor) and is not generated.
+
+def _missing(v):
+    try:
+        return v is None or bool(v != v)
+    except Exception:  # noqa: BLE001
+        return False
+
+
+@st.composite
+def sparse_flag_case(draw):
+    n = draw(st.integers(2, 8))
+    kind = draw(st.sampled_from(['str', 'str', 'float', 'int']))
+    n_lab = draw(st.sampled_from([1, 1, 1, 2]))
+    pool = {'str': ['blink', 'move', 'x'], 'float': [1.0, 0.5, -2.0], 'int': [1, 3, 7]}[kind]
+    labs = draw(st.lists(st.sampled_from(pool), min_size=n_lab, max_size=n_lab, unique=True))
+    filled = [draw(st.booleans()) for _ in range(n)]
+    i, j = draw(st.lists(st.integers(0, n - 1), min_size=2, max_size=2, unique=True))
+    filled[i], filled[j] = True, False
+    vals = [draw(st.sampled_from(labs)) if f else None for f in filled]
+    return dict(n=n, n_ch=draw(st.integers(1, 3)), kind=kind, vals=vals,
+                container=draw(gen.container), oids=[3 + k for k in draw(gen.permutation(n))],
+                explicit=draw(st.booleans()), sess=[draw(st.integers(0, 1)) for _ in range(n)])
+
+
+def check_sparse_flag(case):
+    from rsatoolbox.data.dataset import Dataset
+    n, n_ch, kind = case['n'], case['n_ch'], case['kind']
+    oids = [int(o) for o in case['oids']]
+    if kind == 'float':
+        vals = [float('nan') if v is None else v for v in case['vals']]
+        flag = np.array(vals) if case['container'] == 'array' else list(vals)
+    else:
+        vals = list(case['vals'])
+        flag = np.array(vals, dtype=object) if case['container'] == 'array' else list(vals)
+    names = ['ch%d' % c for c in range(n_ch)]
+    meas = np.array(oids, dtype=float)[:, None] * 100.0 + np.arange(n_ch)[None, :]
+    ds = Dataset(meas.copy(), descriptors={'subj': 'S1'},
+                 obs_descriptors={'flag': flag, '_oid': list(oids), 'sess': list(case['sess'])},
+                 channel_descriptors={'name': list(names)})
+    # numeric flag columns are float columns in the frame: channels must be named (documented)
+    explicit = case['explicit'] or kind != 'str'
+    what = 'Dataset with obs descriptor flag=%r, from_df(to_df()%s)' % (
+        vals, ', channels=%r' % names if explicit else '')
+    df = lib(ds.to_df, on_error='violation', sig='sparse_flag:to_df-raises')
+    back = lib(Dataset.from_df, df, **({'channels': list(names)} if explicit else {}),
+               on_error='violation', sig='sparse_flag:from_df-raises')
+    require(back.measurements.shape == (n, n_ch), '%s: measurements have shape %s, expected %s' % (
+        what, back.measurements.shape, (n, n_ch)), 'sparse_flag:shape')
+    require('_oid' in back.obs_descriptors and len(back.obs_descriptors['_oid']) == n,
+            '%s: the row ids are no longer an observation descriptor' % what, 'sparse_flag:ids')
+    require('flag' in back.obs_descriptors, '%s: the descriptor is no longer per observation '
+            '(obs descriptors %s, dataset descriptors %r)' % (
+                what, sorted(back.obs_descriptors), back.descriptors), 'sparse_flag:not-per-observation')
+    got = list(back.obs_descriptors['flag'])
+    require(len(got) == n, '%s: %d descriptor values for %d rows' % (what, len(got), n),
+            'sparse_flag:shape')
+    own = {o: (vals[i], meas[i]) for i, o in enumerate(oids)}
+    for j, o in enumerate(int(v) for v in back.obs_descriptors['_oid']):
+        v, m = own[o]
+        ok = _missing(got[j]) if _missing(v) else (not _missing(got[j]) and idd.same(got[j], v))
+        require(ok, '%s: row %d (id %d) carries flag=%r, created with %r' % (what, j, o, got[j], v),
+                'sparse_flag:descriptors')
+        require(np.array_equal(back.measurements[j], m), '%s: row %d (id %d) holds the measurements '
+                'of another row' % (what, j, o), 'sparse_flag:measurements')
+
+
+def classify_sparse_flag(case):
+    real = set(v for v in case['vals'] if v is not None)
+    labels = ['kind:' + case['kind'], 'labels:%d' % len(real), 'flag:' + case['container'],
+              'channels:' + ('explicit' if case['explicit'] or case['kind'] != 'str' else 'default'),
+              'first-row:' + ('missing' if case['vals'][0] is None else 'labelled')]
+    return labels, True
+
+
 SUBCHECKS = [
     SubCheck('history_ds', history_case('ds'), check_history, classify_history, quick=400,
              doc='random histories over the listed operations starting from a Dataset; '
@@ -289,4 +464,10 @@ SUBCHECKS = [
     SubCheck('unlabelled', unlabelled_case(), check_unlabelled, classify_unlabelled, quick=200,
              doc='split_obs / odd_even_split over a float descriptor with NaN (unlabelled rows): '
                  'the parts are a partition of the rows, each row keeps its values'),
+    SubCheck('bin_grid', bin_grid_case(), check_bin_grid, classify_bin_grid, quick=100,
+             doc='bin_time with bins listing absent or repeated time values and with repeated time '
+                 'labels: values and time label of a bin are the means over exactly its samples'),
+    SubCheck('sparse_flag', sparse_flag_case(), check_sparse_flag, classify_sparse_flag, quick=150,
+             doc='to_df / from_df with an observation descriptor that is missing (None / NaN) for '
+                 'some rows and holds one or two labels for the others: stays per observation'),
 ]
